@@ -7,6 +7,8 @@ use crate::world::{Outcome, Step, World};
 #[derive(Debug, Clone, PartialEq, Eq, Serialize, Deserialize)]
 pub enum HostileOp {
     Placeholder,
+    /// storage-level operation (storediff runs carry their operations in ordinary steps)
+    Store(crate::store::StOp),
 }
 
 pub fn exec(_w: &mut World, _step: &Step, _h: HostileOp) -> Outcome {
@@ -16,5 +18,6 @@ pub fn exec(_w: &mut World, _step: &Step, _h: HostileOp) -> Outcome {
 pub fn short(h: &HostileOp) -> &'static str {
     match h {
         HostileOp::Placeholder => "placeholder",
+        HostileOp::Store(_) => "store",
     }
 }
